@@ -4,7 +4,8 @@
 (* handled message per action and with every external effect of a message   *)
 (* listed in `out` (the part the conformance harness observes).             *)
 (*                                                                         *)
-(*   zorg edit PATHS   queue = << Edit >>                                    *)
+(*   zorg edit PATHS   queue = << Edit >>     (db reindex: << Reindex >>,     *)
+(*                                            db create: << Create >>)       *)
 (*   Edit      refresh .zoq pages (not modelled), run the editor, then       *)
 (*             EditorClosed                                                  *)
 (*   Closed    handler 1: the keep-alive file asks for another editor        *)
@@ -43,9 +44,11 @@ VARIABLES queue,          \* pending messages
           vims,           \* editor sessions of this process
           reidx,          \* reindex commands handled since the last editor session
           asked,          \* the last Closed event found a keep-alive file
+          offl,           \* the user has edited pages outside zorg since the last process
+          wiped,          \* a refused `db create` has left an empty index behind (nothing is specified from there on)
           out             \* external effects of the last step, in order
 
-vars == << queue, need, ka, running, aborted, sess, proc, vims, reidx, asked, out >>
+vars == << queue, need, ka, running, aborted, sess, proc, vims, reidx, asked, offl, wiped, out >>
 
 PageSet == { PageSeq[i] : i \in DOMAIN PageSeq }
 EditKinds == {"none", "plain", "mod", "new", "both", "break", "fix"}
@@ -55,7 +58,7 @@ KaChoices == {NoKa, [st |-> "empty", paths |-> <<>>, focus |-> ""]}
              \cup { [st |-> "paths", paths |-> k.paths, focus |-> k.focus] : k \in KaPaths }
 
 IsEvent(m) == m.k \in {"Closed", "Mod", "New"}
-IsCommand(m) == m.k \in {"Edit", "Reindex"}
+IsCommand(m) == m.k \in {"Edit", "Reindex", "Create"}
 Sorted(q) == SelectSeq(q, IsEvent) \o SelectSeq(q, IsCommand)      \* sorted(queue, key=is command), stable
 Msg == Head(Sorted(queue))
 Rest == Tail(Sorted(queue))
@@ -79,14 +82,32 @@ EditOK(e, n) == /\ e = "fix" => n.broken
 
 Init == /\ queue = <<>> /\ need = [p \in PageSet |-> Clean] /\ ka = NoKa
         /\ running = FALSE /\ aborted = FALSE /\ sess = 0 /\ proc = 0 /\ vims = 0 /\ reidx = 0
-        /\ asked = FALSE /\ out = <<>>
+        /\ asked = FALSE /\ offl = FALSE /\ wiped = FALSE /\ out = <<>>
 
-\* `zorg edit PATHS`: opening the database commits its schema
-Start == /\ ~running /\ proc < MaxProc
+\* the three commands that go through the bus: `zorg edit PATHS`, `zorg db reindex`, `zorg db create`.
+\* Opening the database commits its schema; `db create` deletes the database file first.
+StartKinds == {"edit", "reindex", "create"}
+FirstMsg(kind) == CASE kind = "edit" -> [k |-> "Edit", paths |-> CliPaths, focus |-> ""]
+                    [] kind = "reindex" -> [k |-> "Reindex"]
+                    [] kind = "create" -> [k |-> "Create"]
+Start(kind) ==
+         /\ ~running /\ ~wiped /\ proc < MaxProc
          /\ running' = TRUE /\ aborted' = FALSE /\ proc' = proc + 1 /\ vims' = 0 /\ reidx' = 0 /\ asked' = FALSE
-         /\ queue' = << [k |-> "Edit", paths |-> CliPaths, focus |-> ""] >>
-         /\ out' = << <<"commit", "db">> >>
-         /\ UNCHANGED << need, ka, sess >>
+         /\ offl' = FALSE
+         /\ queue' = << FirstMsg(kind) >>
+         /\ out' = << <<"start", kind>> >> \o (IF kind = "create" THEN << <<"unlink", "db">> >> ELSE <<>>) \o << <<"commit", "db">> >>
+         /\ UNCHANGED << need, ka, sess, wiped >>
+
+\* between two processes the user may edit pages with any other tool
+OfflineEdit ==
+  /\ ~running /\ ~wiped /\ ~offl /\ proc < MaxProc
+  /\ \E ed \in [PageSet -> EditKinds] :
+       /\ \A p \in PageSet : EditOK(ed[p], need[p])
+       /\ \E p \in PageSet : ed[p] # "none"
+       /\ need' = [p \in PageSet |-> Apply(ed[p], need[p])]
+       /\ out' = << <<"user", ed>> >>
+  /\ offl' = TRUE
+  /\ UNCHANGED << queue, ka, running, aborted, sess, proc, vims, reidx, asked, wiped >>
 
 \* the editor runs; what the user does in it is the environment's choice
 HandleEdit ==
@@ -98,7 +119,7 @@ HandleEdit ==
        /\ out' = << <<"vim", Msg.paths, Msg.focus, ed, kc>> >>
   /\ queue' = Rest \o << [k |-> "Closed", paths |-> Msg.paths, focus |-> Msg.focus] >>
   /\ sess' = sess + 1 /\ vims' = vims + 1 /\ reidx' = 0 /\ asked' = FALSE
-  /\ UNCHANGED << running, aborted, proc >>
+  /\ UNCHANGED << running, aborted, proc, offl, wiped >>
 
 \* EditorClosedEvent: check_keep_alive_file (a LAST message), then reindex_database_after_edit
 HandleClosed ==
@@ -111,7 +132,7 @@ HandleClosed ==
         /\ out' = IF again THEN << <<"unlink", "ka">> >> ELSE <<>>
         /\ asked' = again
   /\ ka' = NoKa
-  /\ UNCHANGED << need, running, aborted, sess, proc, vims, reidx >>
+  /\ UNCHANGED << need, running, aborted, sess, proc, vims, reidx, offl, wiped >>
 
 Differs(p) == need[p].ch \/ need[p].broken                  \* the text is not the one last vouched for
 Changed == SelectSeq(PageSeq, LAMBDA p : Differs(p))
@@ -134,7 +155,27 @@ HandleReindex ==
           /\ queue' = Rest \o Flat(Map(PageEvents, Changed))
           /\ need' = [p \in PageSet |-> IF need[p].mod \/ need[p].new > 0 THEN need[p] ELSE Clean]
           /\ UNCHANGED aborted
-  /\ UNCHANGED << ka, running, sess, proc, vims, asked >>
+  /\ UNCHANGED << ka, running, sess, proc, vims, asked, offl, wiped >>
+
+\* `db create`: every page is walked in file-name order and added in ONE transaction; nothing is ever stamped (there is
+\* no old index to compare with); an unparsable page stops the run after the database file has been deleted
+AllPages == PageSeq
+FirstBrokenAll == IF \E i \in DOMAIN AllPages : need[AllPages[i]].broken
+                  THEN CHOOSE i \in DOMAIN AllPages : need[AllPages[i]].broken /\ \A j \in 1..(i - 1) : ~need[AllPages[j]].broken
+                  ELSE 0
+IdWrites(p) == [i \in 1..need[p].new |-> <<"w", "ids">>]
+NewEvent(p) == IF need[p].new > 0 THEN << [k |-> "New", p |-> p] >> ELSE <<>>
+HandleCreate ==
+  /\ Handling("Create")
+  /\ IF FirstBrokenAll # 0
+     THEN /\ out' = Flat(Map(IdWrites, SubSeq(AllPages, 1, FirstBrokenAll)))      \* the broken page is added before it is judged
+          /\ queue' = <<>> /\ aborted' = TRUE /\ wiped' = TRUE
+          /\ UNCHANGED need
+     ELSE /\ out' = Flat(Map(IdWrites, AllPages)) \o << <<"w", "hash">>, <<"w", "wl">>, <<"commit", "db">> >>
+          /\ queue' = Rest \o Flat(Map(NewEvent, AllPages))
+          /\ need' = [p \in PageSet |-> IF need[p].new > 0 THEN [need[p] EXCEPT !.ch = TRUE, !.mod = FALSE] ELSE Clean]
+          /\ UNCHANGED << aborted, wiped >>
+  /\ UNCHANGED << ka, running, sess, proc, vims, reidx, asked, offl >>
 
 \* write-back of modify dates: the hash map vouches for the page only if no ZID is pending
 HandleMod ==
@@ -143,7 +184,7 @@ HandleMod ==
        /\ out' = << <<"w", p>> >> \o (IF need[p].new > 0 THEN <<>> ELSE << <<"w", "hash">> >>)
        /\ need' = [need EXCEPT ![p] = IF need[p].new > 0 THEN [need[p] EXCEPT !.mod = FALSE] ELSE Clean]
   /\ queue' = Rest
-  /\ UNCHANGED << ka, running, aborted, sess, proc, vims, reidx, asked >>
+  /\ UNCHANGED << ka, running, aborted, sess, proc, vims, reidx, asked, offl, wiped >>
 
 HandleNew ==
   /\ Handling("New")
@@ -151,18 +192,19 @@ HandleNew ==
        /\ out' = << <<"w", p>>, <<"w", "hash">> >>
        /\ need' = [need EXCEPT ![p] = IF need[p].mod THEN [need[p] EXCEPT !.new = 0] ELSE Clean]
   /\ queue' = Rest
-  /\ UNCHANGED << ka, running, aborted, sess, proc, vims, reidx, asked >>
+  /\ UNCHANGED << ka, running, aborted, sess, proc, vims, reidx, asked, offl, wiped >>
 
 Exit == /\ running /\ queue = <<>>
         /\ running' = FALSE
         /\ out' = << <<"exit", IF aborted THEN "error" ELSE "ok">> >>
-        /\ UNCHANGED << queue, need, ka, aborted, sess, proc, vims, reidx, asked >>
+        /\ UNCHANGED << queue, need, ka, aborted, sess, proc, vims, reidx, asked, offl, wiped >>
 
-Next == Start \/ HandleEdit \/ HandleClosed \/ HandleReindex \/ HandleMod \/ HandleNew \/ Exit
+Next == \/ \E kind \in StartKinds : Start(kind)
+        \/ OfflineEdit \/ HandleEdit \/ HandleClosed \/ HandleReindex \/ HandleCreate \/ HandleMod \/ HandleNew \/ Exit
 Spec == Init /\ [][Next]_vars /\ WF_vars(Next)
 
 -----------------------------------------------------------------------------
-MsgKinds == {"Edit", "Closed", "Reindex", "Mod", "New"}
+MsgKinds == {"Edit", "Closed", "Reindex", "Create", "Mod", "New"}
 TypeOK == /\ \A i \in DOMAIN queue : queue[i].k \in MsgKinds
           /\ need \in [PageSet -> [ch : BOOLEAN, mod : BOOLEAN, new : Nat, broken : BOOLEAN]]
           /\ ka \in KaChoices /\ running \in BOOLEAN /\ aborted \in BOOLEAN
@@ -184,11 +226,11 @@ WriteBacksPending ==
   /\ \A i, j \in DOMAIN queue : (i < j /\ queue[i].k \in {"Mod", "New"} /\ queue[j].k \in {"Mod", "New"} /\ queue[i].p = queue[j].p)
                                  => (queue[i].k = "Mod" /\ queue[j].k = "New")
 \* an unparsable page stops the process and nothing else
-AbortOnlyIfBroken == aborted => \E p \in PageSet : need[p].broken
+AbortOnlyIfBroken == ((running /\ aborted) => \E p \in PageSet : need[p].broken) /\ (wiped => aborted)
 \* a process that ends normally leaves nothing behind
-CleanExit == (~running /\ ~aborted) => (NothingPending \/ proc = 0)
+CleanExit == (running /\ queue = <<>> /\ ~aborted) => NothingPending
 \* events are always handled before commands
 EventsFirst == [][ (\E i \in DOMAIN queue : IsEvent(queue[i])) /\ queue' # queue /\ running /\ running'
                    => Len(SelectSeq(queue', IsEvent)) + 1 >= Len(SelectSeq(queue, IsEvent)) /\ IsEvent(Msg) ]_vars
-Terminates == <>[](~running /\ proc = MaxProc)
+Terminates == <>[](~running /\ (proc = MaxProc \/ wiped))
 =============================================================================
